@@ -18,11 +18,16 @@ pub fn resolve_ifs(
         let asm::AstAny::DirectiveIf(node) = &ast.nodes[n]
             else { continue };
         
+        // Names in the condition are looked up from where the
+        // block stands: under the last symbol declared before it
+        let symbol_ctx = symbol_ctx_at(ast, decls, n);
+
         let condition_result = 
             asm::resolver::eval_simple(
                 report,
                 decls,
                 defs,
+                &symbol_ctx,
                 &node.condition_expr)?;
 
         let expr::Value::Bool(condition_result) = condition_result
@@ -65,10 +70,12 @@ pub fn check_leftover_ifs(
     defs: &asm::ItemDefs)
     -> Result<(), ()>
 {
-    for node in &ast.nodes
+    for (node_index, node) in ast.nodes.iter().enumerate()
     {
         let asm::AstAny::DirectiveIf(node) = node
             else { continue };
+
+        let symbol_ctx = symbol_ctx_at(ast, decls, node_index);
 
         report.push_parent(
             "unresolved condition",
@@ -79,6 +86,7 @@ pub fn check_leftover_ifs(
                 report,
                 decls,
                 defs,
+                &symbol_ctx,
                 &node.condition_expr);
 
         report.pop_parent();
@@ -94,4 +102,25 @@ pub fn check_leftover_ifs(
     }
 
     Ok(())
+}
+
+
+/// The symbol context at the position of a top-level node:
+/// that of the last symbol declared before it.
+fn symbol_ctx_at(
+    ast: &asm::AstTopLevel,
+    decls: &asm::ItemDecls,
+    node_index: usize)
+    -> util::SymbolContext
+{
+    ast.nodes[..node_index]
+        .iter()
+        .rev()
+        .find_map(|prev_node| match prev_node
+        {
+            asm::AstAny::Symbol(ast_symbol) => ast_symbol.item_ref,
+            _ => None,
+        })
+        .map(|item_ref| decls.symbols.get(item_ref).ctx.clone())
+        .unwrap_or_else(|| util::SymbolContext::new_global())
 }
